@@ -64,7 +64,7 @@ Section Chars.
     destruct G as [G1 [G2 G3]].
     destruct (Nat.ltb_spec (cbsz c) (length (ccur r))) as [?|_]; [lia|].
     pose proof (xcode_more_spec step maxSeq c HC HS (S (S (rbsz c))) false r (cbsz c - length (ccur r))
-                  (conj G1 (conj G2 G3)) ltac:(cbn [Nat.add]; lia) ltac:(discriminate) D st HD) as Hx.
+                  (conj G1 (conj G2 G3)) ltac:(lia) ltac:(cbn [Nat.add]; lia) ltac:(discriminate) D st HD) as Hx.
     destruct (xcode_more c (S (S (rbsz c))) false r (cbsz c - length (ccur r))) as [[r1 new]|[| |e]]; auto.
     destruct Hx as [Gr1 [A2 [A3 [A4 [A5 [A6 [A7 [rest [R1 [R2 [R3 R4]]]]]]]]]]].
     set (cc := ccur r ++ new) in *.
